@@ -1,11 +1,249 @@
-import GrinVerif.Model.Store
-/-! # C08 — pruning, compaction, rewind and reopen never change what the MMR commits to -/
+import GrinVerif.Lemmas.StoreBackend
+/-! # C08 — pruning, compaction, rewind and reopen never change what the MMR commits to
+
+Property theorems about the model of `store/src/{prune_list,types,leaf_set,pmmr}.rs`
+(`Model/PruneList.lean`, `Model/Store.lean`).  Helper lemmas live in `Lemmas/Store*.lean`,
+`Lemmas/PruneList*.lean`.  All statements are for every prune list / file / backend / operation
+sequence (no size bound).
+
+Vocabulary.  The bitmap of a prune list holds 1-based root positions `x`; the root is `x − 1`.
+`sumF f bm = Σ_{x ∈ bm} f (x − 1)`.  `PruneList.Inv` is the roll-up invariant: positions ≥ 1,
+strictly ascending, the subtree of every root lies entirely to the right of all earlier roots
+(so no root is inside another root's subtree), both caches are the running sums of the per-root
+shifts, and no root has a pruned sibling.  `compactedP bm q` = `q` lies strictly inside the
+subtree of a root (its hash is gone from the hash file).  `layout bm size` = the positions
+`< size` that are not compacted, ascending — the order in which the compacted hash file
+stores them. -/
 namespace GV.Props.C08
 open GV GV.Pmmr GV.Store
 
-/-- `read` after `append` on a clean file returns the appended element. -/
-theorem aof_read_append {E : Type} (d : List E) (e : E) :
-    ((AOF.ofDisk d).append e).read d.length = some e := by
-  simp [AOF.ofDisk, AOF.append, AOF.read, AOF.sizeUnsyncInElmts]
+/-! ## Prune list: roll-up invariant -/
+
+/-- The empty prune list satisfies the invariant. -/
+theorem inv_empty : PruneList.Inv {} := PruneList.inv_empty
+
+/-- **Roll-up invariant preserved by `append`** – for every position, including the recursive
+roll-up of siblings into the parent and `cleanup_subtree`. -/
+theorem rollup_inv_append (pl : PruneList) (h : pl.Inv) (pos0 : Nat) : (pl.append pos0).Inv :=
+  PruneList.append_inv h pos0
+
+/-- Every prune list produced by `PruneList::new` (hence by `check_compact` and by
+`PruneList::open`) satisfies the invariant. -/
+theorem inv_of_new (bm : Bitmap) : (PruneList.new bm).Inv := PruneList.new_inv bm
+
+/-! ## Prune list: what the shifts are (DESIGN A.5) -/
+
+/-- **shift_spec.** `get_shift pos0 = Σ_{r pruned root, r ≤ pos0} 2·(2^{h(r)} − 1)`. -/
+theorem shift_spec (pl : PruneList) (h : pl.Inv) (pos0 : Nat) :
+    pl.getShift pos0 = sumF PruneList.rootShift (pl.bitmap.filter (· ≤ 1 + pos0)) :=
+  PruneList.getShift_spec h pos0
+
+/-- **leaf shift_spec.** `get_leaf_shift pos0 = Σ_{r pruned root, r ≤ pos0, h(r) > 0} 2^{h(r)}`. -/
+theorem leaf_shift_spec (pl : PruneList) (h : pl.Inv) (pos0 : Nat) :
+    pl.getLeafShift pos0 = sumF PruneList.rootLeafShift (pl.bitmap.filter (· ≤ 1 + pos0)) :=
+  PruneList.getLeafShift_spec h pos0
+
+/-- The strict interior of the subtree of any position `p` has exactly `2·(2^{h(p)} − 1)`
+positions (`bintree_leftmost p .. p − 1`) – the summand of `get_shift`. -/
+theorem subtree_interior_width (p : Nat) :
+    p - bintreeLeftmost p = PruneList.rootShift p := interior_width p
+
+/-- **The shift counts the compacted positions.** For every position that is not itself
+compacted away, `get_shift pos` is the number of positions below `pos` that are. -/
+theorem shift_counts_compacted (pl : PruneList) (h : pl.Inv) (pos : Nat)
+    (hnc : compactedP pl.bitmap pos = false) :
+    pl.getShift pos = (List.range pos).countP (compactedP pl.bitmap) :=
+  PruneList.getShift_counts h pos hnc
+
+/-- **Hence `pos − shift` indexes the compacted file**: in the ascending list of surviving
+positions, `pos` is the element with index `pos − get_shift pos`. -/
+theorem shifted_index (pl : PruneList) (h : pl.Inv) (size pos : Nat) (hpos : pos < size)
+    (hnc : compactedP pl.bitmap pos = false) :
+    (layout pl.bitmap size)[pos - pl.getShift pos]? = some pos :=
+  layout_index h size pos hpos hnc
+
+/-- **Read law of the compacted hash file.** If the (synced) hash file holds the reference hashes
+of exactly the surviving positions, `get_peak_from_file` – and `get_from_file` wherever
+`is_compacted` is false – returns the reference hash of every surviving position. -/
+theorem read_compacted_file {H : Type} (b : Backend H) (ref : Nat → H) (size : Nat)
+    (hinv : b.pruneList.Inv) (hclean : b.hashFile.Clean)
+    (hlay : b.hashFile.disk = (layout b.pruneList.bitmap size).map ref)
+    (pos : Nat) (hpos : pos < size) (hnc : compactedP b.pruneList.bitmap pos = false) :
+    b.getPeakFromFile pos = some (ref pos) ∧
+    b.getFromFile pos = if b.isCompacted pos then none else some (ref pos) := by
+  have h := Backend.getPeakFromFile_of_layout ref size hinv hclean hlay pos hpos hnc
+  exact ⟨h, by rw [Backend.getFromFile_eq, h]⟩
+
+/-- **Reopen is the identity on the prune list**: flushing the bitmap and `PruneList::open`ing
+it (re-append every root, rebuild both caches from scratch) yields the same list and caches. -/
+theorem prune_list_reopen (pl : PruneList) (h : pl.Inv) : PruneList.openBm pl.bitmap = pl :=
+  PruneList.openBm_of_inv h
+
+/-! ## File layer (`AppendOnlyFile`, `LeafSet`) -/
+
+/-- `read` returns an element appended to the buffer at the position `append` assigned to it. -/
+theorem file_read_append {E : Type} (f : AOF E) (e : E) :
+    (f.append e).read f.sizeUnsyncInElmts = some e := AOF.read_append_new f e
+
+/-- … and `append` does not change what any earlier position reads. -/
+theorem file_read_append_old {E : Type} (f : AOF E) (e : E) (pos : Nat)
+    (h : pos < f.sizeUnsyncInElmts) : (f.append e).read pos = f.read pos :=
+  AOF.read_append_old f e pos h
+
+/-- After `rewind p` and re-appending `es` (nothing flushed yet) every read returns the rewound
+and re-extended sequence: old data below `p`, the buffer from `p` on, nothing of the discarded
+tail. -/
+theorem file_read_after_rewind {E : Type} (f : AOF E) (h : f.Clean) (p : Nat)
+    (hp : p ≤ f.disk.length) (es : List E) (i : Nat) :
+    ((f.rewind p).extend es).read i = (f.disk.take p ++ es)[i]? :=
+  AOF.read_rewind_extend h p hp es i
+
+/-- `rewind` then `flush`: the file on disk is truncated at the rewind point, then extended. -/
+theorem file_rewind_flush {E : Type} (f : AOF E) (h : f.Clean) (p : Nat) (es : List E) :
+    ((f.rewind p).extend es).flush.disk = f.disk.take p ++ es :=
+  AOF.flush_rewind_extend h p es
+
+/-- `discard` after any sequence of appends and rewinds (to positions inside the file) of one
+unit of work restores the synced file exactly. -/
+theorem file_discard {E : Type} (f : AOF E) (h : f.Clean) (ops : List (AOF.Op E))
+    (hw : ∀ op ∈ ops, op.Within f.disk.length) : (ops.foldl AOF.Op.apply f).discard = f :=
+  AOF.discard_unit h ops hw
+
+/-- A flushed file re-opened from disk is the same file. -/
+theorem file_reopen {E : Type} (f : AOF E) : AOF.ofDisk f.flush.disk = f.flush := AOF.reopen_flush f
+
+/-- `write_tmp_pruned`'s loop removes exactly the listed indices when they are ascending. -/
+theorem write_tmp_pruned_spec {E : Type} (es : List E) (pp : List Nat) (hs : Sorted pp) :
+    AOF.writeTmpLoop es 0 pp = keepIdx (fun i => !pp.elem i) es 0 :=
+  writeTmpLoop_spec es 0 pp hs (fun _ _ => Nat.zero_le _)
+
+/-- `LeafSet::rewind`: a position is in the rewound leaf set iff it was in the set at or below
+the cutoff or is one of the re-added (`rewind_rm_pos`) positions. -/
+theorem leafset_rewind_mem (ls : LeafSet) (cutoff : Nat) (rm : Bitmap) (hs : Sorted ls.bitmap)
+    (x : Nat) : x ∈ (ls.rewind cutoff rm).bitmap ↔ (x ∈ ls.bitmap ∧ x ≤ cutoff) ∨ x ∈ rm :=
+  LeafSet.mem_rewind ls cutoff rm hs x
+
+/-! ## Backend: units of work, reopen, compaction -/
+
+/-- **`discard` ∘ (any operations of one unit of work) = identity.** From a synced backend, after
+any sequence of `append` / `remove` / `rewind` whose rewinds stay inside the synced files (the
+usage protocol), `discard` restores the backend state exactly – hence every observable. -/
+theorem unit_discard {H : Type} (b : Backend H) (df : AOF Bytes) (hc : Backend.CleanFixed b df)
+    (ops : List (Backend.Op H)) (hw : ∀ op ∈ ops, op.Within b df) :
+    (ops.foldl Backend.Op.apply b).discard = b :=
+  Backend.discard_unit hc ops hw
+
+/-- `sync` leaves a synced backend, so the two laws compose over histories of units. -/
+theorem sync_clean {H : Type} (b : Backend H) (df : AOF Bytes) (hd : b.dataFile = .fixed df) :
+    Backend.CleanFixed b.sync df.flush := Backend.sync_clean hd
+
+/-- **`sync` then drop + reopen is the identity** on the whole backend state (hash file, data
+file, leaf set, prune list with both caches) – hence on every observable. -/
+theorem sync_reopen {H : Type} (el : Bytes → Option Nat) (b : Backend H) (df : AOF Bytes)
+    (hd : b.dataFile = .fixed df) (hinv : b.pruneList.Inv) : b.sync.reopen el = b.sync :=
+  Backend.reopen_sync el hd hinv
+
+/-- Compaction then drop + reopen is the identity as well. -/
+theorem compact_reopen {H : Type} (el : Bytes → Option Nat) (b : Backend H) (df : AOF Bytes)
+    (hc : Backend.CleanFixed b df) (cutoff : Nat) (rm : Bitmap) :
+    (b.checkCompact el cutoff rm).reopen el = b.checkCompact el cutoff rm :=
+  Backend.reopen_checkCompact el hc cutoff rm
+
+/- Full statement intended (DESIGN §4 C08 `compact_preserves`), NOT proved:
+
+   for a synced backend `b` whose hash/data files hold the reference values of the surviving
+   positions (`hashFile.disk = (layout pl.bitmap size).map ref`, likewise the data file with the
+   leaf shift) and whose unspent leaves are not pruned, and `b' = b.checkCompact cutoff rm` with
+   `cutoff` an earlier boundary and `rm` the leaves spent after it:
+     * `b'.hashFile.disk = (layout b'.pruneList.bitmap size).map ref` (and the data file likewise),
+     * no unspent leaf, Merkle-path sibling of an unspent leaf, peak or pruned root is compacted in `b'`,
+     * `b'.unprunedSize = b.unprunedSize`,
+   hence (by `read_compacted_file`) every position the reference still needs reads the reference
+   value after compaction.
+
+   Missing: (1) set-level correctness of the roll-up (`pruned positions of append pl p = pruned
+   positions of pl ∪ subtree p`), (2) `pos_to_rm` = the newly compacted positions, so that
+   `write_tmp_pruned_spec` turns the old layout into the new one, (3) the leaf-shift analogue of
+   `shift_counts_compacted`.  These compositions are carried by the correspondence run, which
+   compares `get_from_file` of every position, root, size and all leaf data with the unpruned
+   reference after every compaction. -/
+
+/-- **compact_preserves (partial).** What is proved about `check_compact` for every backend,
+cutoff and `rewind_rm_pos`: the unspent-leaf set (`leaf_pos_iter`, `n_unpruned_leaves`) is
+untouched; the new prune list satisfies the roll-up invariant, so `shift_spec`,
+`shift_counts_compacted`, `shifted_index` hold for it; and therefore, *if* the rewritten hash
+file holds the reference hashes of the surviving positions, every surviving position reads its
+reference hash.  The hypothesis `hlay` is the named gap (see the comment above). -/
+theorem compact_preserves_partial {H : Type} (el : Bytes → Option Nat) (b : Backend H)
+    (cutoff : Nat) (rm : Bitmap) :
+    let b' := b.checkCompact el cutoff rm
+    b'.leafPosIter = b.leafPosIter ∧ b'.nUnprunedLeaves = b.nUnprunedLeaves ∧
+    b'.pruneList.Inv ∧
+    (∀ (ref : Nat → H) (size : Nat), b'.hashFile.Clean →
+      b'.hashFile.disk = (layout b'.pruneList.bitmap size).map ref →
+      ∀ pos, pos < size → compactedP b'.pruneList.bitmap pos = false →
+        b'.getPeakFromFile pos = some (ref pos)) := by
+  refine ⟨rfl, rfl, Backend.checkCompact_inv el b cutoff rm, ?_⟩
+  intro ref size hclean hlay pos hpos hnc
+  exact Backend.getPeakFromFile_of_layout ref size (Backend.checkCompact_inv el b cutoff rm)
+    hclean hlay pos hpos hnc
+
+/-! ## Non-vacuity -/
+
+/-- a prune list with one pruned root: position 2, the parent of leaves 0 and 1 -/
+def plOne : PruneList :=
+  { bitmap := [3], shiftCache := [PruneList.rootShift 2], leafShiftCache := [PruneList.rootLeafShift 2] }
+
+theorem plOne_inv : plOne.Inv := by
+  refine ⟨by simp [plOne], List.pairwise_singleton _ _, List.pairwise_singleton _ _, ?_, ?_, ?_⟩
+  · simp [plOne, scanFrom]
+  · simp [plOne, scanFrom]
+  · intro k hk
+    have : k = 0 := by simpa [plOne] using hk
+    subst this
+    simp [plOne, PruneList.isPrunedBm, PruneList.isPruned, PruneList.isPrunedRoot, Bm.contains,
+      Bm.select, Bm.rank]
+
+theorem height_two : height 2 = 1 := by
+  have := pmh_coord 1 1 (by simp [trailingOnes])
+  have h1 : mmr 1 = 1 := by simp [mmr, popcount]
+  rw [h1] at this
+  simp [height, this]
+
+-- the invariant is inhabited by a non-empty list; its shift at position 5 is 2 (leaves 0 and 1
+-- are gone from the hash file), its leaf shift is 2, and position 5 is not compacted
+example : plOne.Inv ∧ plOne.getShift 5 = 2 ∧ plOne.getLeafShift 5 = 2 ∧
+    compactedP plOne.bitmap 5 = false ∧ compactedP plOne.bitmap 1 = true := by
+  refine ⟨plOne_inv, ?_, ?_, ?_, ?_⟩
+  · rw [shift_spec _ plOne_inv]; simp [plOne, sumF, PruneList.rootShift, height_two]
+  · rw [leaf_shift_spec _ plOne_inv]; simp [plOne, sumF, PruneList.rootLeafShift, height_two]
+  · simp [plOne, compactedP, interior]
+  · simp [plOne, compactedP, interior, bintreeLeftmost, height_two]
+
+-- appending to it keeps the invariant, and any bitmap at all yields an invariant list
+example : (plOne.append 7).Inv ∧ (PruneList.new [1, 2, 5, 8, 9]).Inv :=
+  ⟨rollup_inv_append _ plOne_inv 7, inv_of_new _⟩
+
+-- a synced file with content, a unit with a rewind inside it, and its discard
+example : (AOF.ofDisk [10, 20, 30]).Clean ∧
+    ([AOF.Op.rewind 1, AOF.Op.append 7].foldl AOF.Op.apply (AOF.ofDisk [10, 20, 30])).discard
+      = AOF.ofDisk [10, 20, 30] ∧
+    (((AOF.ofDisk [10, 20, 30]).rewind 1).extend [7]).read 1 = some 7 ∧
+    (((AOF.ofDisk [10, 20, 30]).rewind 1).extend [7]).flush.disk = [10, 7] := by
+  refine ⟨AOF.ofDisk_clean _, ?_, ?_, ?_⟩
+  · exact file_discard _ (AOF.ofDisk_clean _) _ (by
+      intro op hop
+      simp at hop
+      rcases hop with rfl | rfl
+      · show 1 ≤ 3; omega
+      · trivial)
+  · rw [file_read_after_rewind _ (AOF.ofDisk_clean _) 1 (by simp [AOF.ofDisk])]; rfl
+  · rw [file_rewind_flush _ (AOF.ofDisk_clean _)]; rfl
+
+-- a synced backend (after `sync`) exists for every backend with a fixed-size data file, and the
+-- backend-level laws apply to it, e.g. to the default backend after a push-like append
+example : ∃ (b : Backend Nat) (df : AOF Bytes), Backend.CleanFixed b df ∧ b.hashFile.disk = [5] :=
+  ⟨(((({} : Backend Nat).append [1,2,3,4,5,6,7,8] [5]).getD {}).sync), _,
+    Backend.sync_clean (by rfl), by rfl⟩
 
 end GV.Props.C08
